@@ -92,6 +92,38 @@ def lp_solve_facts():
     return retry, accept, ln
 
 
+# ---------------------------------------------------------------- shared helpers one level below the two builders
+UCORE = 'include/AIToolbox/Utils/Core.hpp'
+FCORE = 'src/Factored/Utils/Core.cpp'
+_HELPERS = [
+    # (fact name, file, header regex, expected body with all whitespace removed, what the model assumes)
+    ('helperCheckEqualSmallIsAbsLe', UCORE, r'inline\s+bool\s+checkEqualSmall\s*\(\s*const\s+double\s+a\s*,\s*const\s+double\s+b\s*\)\s*\{',
+     'return(std::fabs(a-b)<=equalToleranceSmall);',
+     'checkEqualSmall(a, b) is |a - b| <= equalToleranceSmall (model: isZeroSmall)'),
+    ('helperJoinKeysOffsetsByS', FCORE, r'PartialKeys\s+join\s*\(\s*const\s+size_t\s+S\s*,\s*const\s+PartialKeys\s*&\s*lhs\s*,\s*const\s+PartialKeys\s*&\s*rhs\s*\)\s*\{',
+     'PartialKeysretval;retval.reserve(lhs.size()+rhs.size());retval.insert(std::end(retval),std::begin(lhs),std::end(lhs));'
+     'std::transform(std::begin(rhs),std::end(rhs),std::back_inserter(retval),[S](constsize_ta){returna+S;});returnretval;',
+     'join(S, tag, actionTag) = tag ++ actionTag.map (+S) (model: joinTag)'),
+    ('helperToIndexPartialPF', FCORE, r'size_t\s+toIndexPartial\s*\(\s*const\s+PartialKeys\s*&\s*ids\s*,\s*const\s+Factors\s*&\s*space\s*,\s*const\s+PartialFactors\s*&\s*pf\s*\)\s*\{',
+     'size_tresult=0;size_tmultiplier=1;size_tj=0;for(autoid:ids){while(pf.first[j]!=id)++j;result+=multiplier*pf.second[j];multiplier*=space[id];}returnresult;',
+     'toIndexPartial(keys, space, partial factors) is the little-endian mixed-radix index over the keys (model: toIndexPartial)'),
+    ('helperEnumeratorAdvance', FCORE, r'void\s+PartialFactorsEnumerator::advance\s*\(\s*\)\s*\{',
+     'size_tid=!factorToSkipId_;while(id<factors_.second.size()){++factors_.second[id];if(factors_.second[id]==F[factors_.first[id]]){factors_.second[id]=0;'
+     'if(++id==factorToSkipId_)++id;}elsereturn;}factors_.second.clear();',
+     'PartialFactorsEnumerator::advance counts little-endian over the keys, skipping the eliminated one (model: toFactors (sel nb A) jvID)'),
+]
+
+
+def helper_facts():
+    rows = []
+    for nm, rel, hdr, expect, doc in _HELPERS:
+        src = E.strip_comments(E.read(rel))
+        body, ln = _body(src, hdr, rel + ' ' + nm)
+        flat = re.sub(r'\s+', '', body)
+        rows.append((nm, 'Bool', 'true' if flat == expect else 'false', rel, ln, doc))
+    return rows
+
+
 def gen_c15facts():
     rows = []
     # columns taken per new factor = addColumn() calls in initNewFactor
@@ -158,6 +190,7 @@ def gen_c15facts():
     m1 = E.find1(r'for\s*\(\s*const\s+auto\s*&\s*rule\s*:\s*factor->getData\(\)\s*\)\s*if\s*\(\s*jvPartialIndex\s*==\s*rule\.first\s*\)\s*global\.crossSum\(rule\.second\)', src, 'GVE non-merge lookup loop')
     E.find1(r'oldRules\.emplace_back\(\s*jvID\s*,', src, 'GVE non-merge append')
     rows.append(('gveAppendsAndSumsAllMatches', 'Bool', 'true', GVE, E.lineno(src, m1.start()), 'without mergeFactors: new rules are appended, every rule with the wanted index is cross-summed'))
+    rows += helper_facts()
     retry, accept, ln = lp_solve_facts()
     rows.append(('lpRetryCodes', 'List Int', '[' + ', '.join(map(str, retry)) + ']', LPW, ln, 'lp_solve result codes after which LP::solve calls ::solve a second time (first-index pricing)'))
     rows.append(('lpAcceptCodes', 'List Int', '[' + ', '.join(map(str, accept)) + ']', LPW, ln, 'lp_solve result codes with which LP::solve hands the point back'))
@@ -169,4 +202,168 @@ def gen_c15facts():
     E.write_if_changed('C15Facts', '\n'.join(out))
 
 
-GENERATORS = [gen_c15facts]
+# ---------------------------------------------------------------- callback bodies -> statement lists (AITB.Model.FLPBuf.BStmt)
+_IX = {'newFactor': '.newFactor', 'f': '.f', 'phiId': '.phi', 'ruleId': '.rule', 'ruleId+1': '.rule1'}
+_SHIFT = re.compile(r'for\(inti=lp\.row\.size\(\)-2;i>=0;--i\)\{?if\(lp\.row\[i\]!=0\.0\)\{lp\.row\[i\+1\]=lp\.row\[i\];lp\.row\[i\]=0\.0;\}\}?')
+_WRITE = re.compile(r'lp\.row\[([A-Za-z0-9_+]+)\]=([+-]?[0-9.]+);')
+_PUSH = re.compile(r'lp\.pushRow\(LP::Constraint::LessEqual,0\.0\);')
+_FORF = re.compile(r'for\((?:const)?auto&?ruleId:finalFactors\)')
+
+
+def _write_stmt(m, what, in_loop):
+    ix = m.group(1)
+    if ix not in _IX or (ix.startswith('ruleId') and not in_loop):
+        raise E.ExtractError('%s: unknown index expression lp.row[%s]' % (what, ix))
+    return _IX[ix], E.lean_rat(E.lit_to_rat(m.group(2)))
+
+
+def _stmts(flat, what):
+    """flat = body with all whitespace removed"""
+    out, i = [], 0
+    while i < len(flat):
+        rest = flat[i:]
+        if rest.startswith('lp.row.setZero();'):
+            out.append('.setZero'); i += len('lp.row.setZero();'); continue
+        m = _PUSH.match(rest)
+        if m:
+            out.append('.pushLe'); i += m.end(); continue
+        m = _SHIFT.match(rest)
+        if m:
+            if m.group(0).count('{') != m.group(0).count('}'):
+                raise E.ExtractError(what + ': unbalanced shift loop')
+            out.append('.shiftRight'); i += m.end(); continue
+        m = _FORF.match(rest)
+        if m:
+            j = i + m.end()
+            ws = []
+            if flat[j] == '{':
+                k = flat.index('}', j)
+                inner = flat[j + 1:k]; nxt = k + 1
+            else:
+                k = flat.index(';', j)
+                inner = flat[j:k + 1]; nxt = k + 1
+            pos = 0
+            while pos < len(inner):
+                mw = _WRITE.match(inner[pos:])
+                if not mw:
+                    raise E.ExtractError('%s: statement inside the finalFactors loop is not `lp.row[..] = literal;`: %s' % (what, inner[pos:pos + 60]))
+                ix, q = _write_stmt(mw, what, True)
+                ws.append('(%s, %s)' % (ix, q)); pos += mw.end()
+            out.append('.forFinals [' + ', '.join(ws) + ']'); i = nxt; continue
+        m = _WRITE.match(rest)
+        if m:
+            ix, q = _write_stmt(m, what, False)
+            out.append('.write %s %s' % (ix, q)); i += m.end(); continue
+        raise E.ExtractError('%s: statement of unknown shape: %s' % (what, rest[:80]))
+    return out
+
+
+def gen_c15callbacks():
+    out = ['/- GENERATED by tools/extract_c15.py from the library source — do not edit.',
+           '   The bodies of Global::beginCrossSum / crossSum / endCrossSum / makeResult of the two LP builders, statement by statement. -/',
+           'import AITB.Model.FLPBuf', 'namespace AITB.Gen', 'open AITB.FLP', '']
+    for rel, nm in ((FLP, 'flpCallbacks'), (MLP, 'mdpCallbacks')):
+        src = E.strip_comments(E.read(rel))
+        fields = []
+        for cb, hdr in (('beginCrossSum', r'void\s+Global::beginCrossSum\s*\(\s*\)\s*\{'),
+                        ('crossSum', r'void\s+Global::crossSum\s*\(\s*const\s+Factor\s*&\s*f\s*\)\s*\{'),
+                        ('endCrossSum', r'void\s+Global::endCrossSum\s*\(\s*\)\s*\{'),
+                        ('makeResult', r'void\s+Global::makeResult\s*\(\s*VE::FinalFactors\s*&&\s*finalFactors\s*\)\s*\{')):
+            body, ln = _body(src, hdr, rel + ' Global::' + cb)
+            st = _stmts(re.sub(r'\s+', '', body), '%s:%d Global::%s' % (rel, ln, cb))
+            fields.append('  %s := [%s]' % (cb, ', '.join(st)))
+        out.append('/-- %s -/' % rel)
+        out.append('def %s : Callbacks := {\n%s }' % (nm, ',\n'.join(fields)))
+        out.append('')
+    out += ['end AITB.Gen', '']
+    E.write_if_changed('C15Callbacks', '\n'.join(out))
+
+
+# ---------------------------------------------------------------- FactoredLP setup loops -> statement lists (AITB.Model.FLPBuf.SStmt)
+_SIX = {'currentRule': '.rule', 'currentRule+1': '.rule1', 'currentWeight': '.weight', 'constBasisId': '.const'}
+_SWRITE = re.compile(r'(if\(addConstantBasis\))?lp\.row\[([A-Za-z0-9_+]+)\]=([^;]+);')
+_SPUSH = re.compile(r'lp\.pushRow\(LP::Constraint::Equal,([^;]+)\);')
+_TAIL = 'newFactor->getData().emplace_back(i,currentRule);currentRule+=2;'
+
+
+def _sval(tok, what):
+    if tok == 'f.values[i]':
+        return '.val'
+    if tok == '-f.values[i]':
+        return '.negVal'
+    if tok == 'constBasisCoeff':
+        return '.cc'
+    if tok == '-constBasisCoeff':
+        return '.negCc'
+    if re.fullmatch(r'[+-]?[0-9.]+', tok):
+        return '(.lit %s)' % E.lean_rat(E.lit_to_rat(tok))
+    raise E.ExtractError('%s: unknown value expression %r' % (what, tok))
+
+
+def _setup_body(flat, what):
+    if not flat.endswith(_TAIL):
+        raise E.ExtractError(what + ': the entry loop does not end with `emplace_back(i, currentRule); currentRule += 2;`')
+    flat = flat[:-len(_TAIL)]
+    out, i = [], 0
+    while i < len(flat):
+        rest = flat[i:]
+        m = _SPUSH.match(rest)
+        if m:
+            out.append('.pushEq ' + _sval(m.group(1), what)); i += m.end(); continue
+        m = _SWRITE.match(rest)
+        if m:
+            if m.group(2) not in _SIX:
+                raise E.ExtractError('%s: unknown index expression lp.row[%s]' % (what, m.group(2)))
+            out.append(('.writeIfConst ' if m.group(1) else '.write ') + _SIX[m.group(2)] + ' ' + _sval(m.group(3), what)); i += m.end(); continue
+        raise E.ExtractError('%s: statement of unknown shape: %s' % (what, rest[:80]))
+    return out
+
+
+def _block_after(src, header_re, what):
+    """body of the braced block that starts at the match of header_re, and the text after it"""
+    m = E.find1(header_re, src, what)
+    i = src.index('{', m.end() - 1)
+    depth = 0
+    for j in range(i, len(src)):
+        if src[j] == '{':
+            depth += 1
+        elif src[j] == '}':
+            depth -= 1
+            if depth == 0:
+                return src[i + 1:j], src[j + 1:]
+    raise E.ExtractError('unbalanced braces: ' + what)
+
+
+def gen_c15setup():
+    src = E.strip_comments(E.read(FLP))
+    opbody, _ = _body(src, r'std::optional<Vector>\s+FactoredLP::operator\(\)\s*\([^)]*\)\s*\{', FLP + ' FactoredLP::operator()')
+    flat_all = re.sub(r'\s+', '', opbody)
+    # the buffer is cleared once before the loops, the weight column after every basis, the constant column after the first loop
+    for need, what in (('lp.setObjective(phiId,false);lp.row.setZero();', 'row buffer cleared after setObjective'),):
+        if need not in flat_all:
+            raise E.ExtractError(FLP + ': operator(): expected `%s` (%s)' % (need, what))
+    outC, afterC = _block_after(opbody, r'for\s*\(\s*const\s+auto\s*&\s*f\s*:\s*C\.bases\s*\)\s*\{', FLP + ' loop over C.bases')
+    inC, restC = _block_after(outC, r'for\s*\(\s*int\s+i\s*=\s*0\s*;\s*i\s*<\s*f\.values\.size\(\)\s*;\s*\+\+i\s*\)\s*\{', FLP + ' entry loop of C')
+    if re.sub(r'\s+', '', restC) != 'lp.row[currentWeight++]=0.0;':
+        raise E.ExtractError(FLP + ': after the entry loop of C expected exactly `lp.row[currentWeight++] = 0.0;`, found ' + re.sub(r'\s+', '', restC)[:80])
+    if not re.sub(r'\s+', '', outC).startswith('autonewFactor=graph.getFactor(f.tag);for('):
+        raise E.ExtractError(FLP + ': loop over C.bases has an unknown prologue')
+    if not re.sub(r'\s+', '', afterC).startswith('if(addConstantBasis)lp.row[constBasisId]=0.0;'):
+        raise E.ExtractError(FLP + ': after the loop over C.bases expected `if (addConstantBasis) lp.row[constBasisId] = 0.0;`')
+    outB, _ = _block_after(afterC, r'for\s*\(\s*const\s+auto\s*&\s*f\s*:\s*b\.bases\s*\)\s*\{', FLP + ' loop over b.bases')
+    inB, restB = _block_after(outB, r'for\s*\(\s*int\s+i\s*=\s*0\s*;\s*i\s*<\s*f\.values\.size\(\)\s*;\s*\+\+i\s*\)\s*\{', FLP + ' entry loop of b')
+    if re.sub(r'\s+', '', restB) != '':
+        raise E.ExtractError(FLP + ': unexpected statements after the entry loop of b')
+    bodyC = _setup_body(re.sub(r'\s+', '', inC), FLP + ' entry loop of C')
+    bodyB = _setup_body(re.sub(r'\s+', '', inB), FLP + ' entry loop of b')
+    out = ['/- GENERATED by tools/extract_c15.py from the library source — do not edit.',
+           '   The bodies of the two entry loops of FactoredLP::operator() (one iteration: two pushes), statement by statement;',
+           '   the translator also checks: `lp.row.setZero()` before the loops, `lp.row[currentWeight++] = 0.0` after every basis of C,',
+           '   `if (addConstantBasis) lp.row[constBasisId] = 0.0` after the loop over C. -/',
+           'import AITB.Model.FLPBuf', 'namespace AITB.Gen', 'open AITB.FLP', '',
+           'def flpSetupCBody : List SStmt := [%s]' % ', '.join(bodyC), '',
+           'def flpSetupBBody : List SStmt := [%s]' % ', '.join(bodyB), '', 'end AITB.Gen', '']
+    E.write_if_changed('C15Setup', '\n'.join(out))
+
+
+GENERATORS = [gen_c15facts, gen_c15callbacks, gen_c15setup]
